@@ -518,6 +518,7 @@ def c09(tier, seed):
         {'line': 'A=; ./pargs "[$A]"', 'files': F, 'expect_stdout': '[[]]\n', 'area': 'vars:empty-value'},
         {'line': 'export A="a b"; ./envp', 'files': F, 'expect_stdout': '[a b]\n', 'area': 'vars:export-value-with-space'},
         {'line': 'S="x y"; export T=$S; printenv T; V=\'it"s\'; export W="$V"; printenv W', 'files': F, 'expect_stdout': 'x y\nit"s\n', 'area': 'vars:export-value-from-an-expansion'},
+        {'line': 'export C="p ~ q"; printenv C; export F="~/q"; printenv F; export G=a~/b; printenv G; export D=~/x; ./pargs "$D" "$HOME/x"', 'files': F, 'expect_stdout_prefix': 'p ~ q\n~/q\na~/b\n', 'area': 'vars:export-value-with-a-tilde'},
         {'line': 'export B=old; read A B <<< "one two three"; printenv B; ./pargs "$A" "$B"', 'files': F, 'expect_stdout': 'two three\n' + _argv(['one', 'two three']), 'area': 'read:into-an-exported-name'},
         {'line': 'read a b c <<< "1 2 3 4"; ./pargs "$a" "$b" "$c"', 'files': F, 'expect_stdout': _argv(['1', '2', '3 4']), 'area': 'read'},
         {'line': 'read a b <<< "1"; ./pargs "[$a]" "[$b]"', 'files': F, 'expect_stdout': _argv(['[1]', '[]']), 'area': 'read'},
